@@ -222,7 +222,7 @@ impl Cfg {
         &self.p[..self.kind.nperiods()]
     }
     pub fn sum_periods(&self) -> usize {
-        self.periods().iter().sum()
+        self.periods().iter().fold(0usize, |a, p| a.saturating_add(*p))
     }
     pub fn max_period(&self) -> usize {
         self.periods().iter().copied().max().unwrap_or(1)
